@@ -8,7 +8,7 @@
 From Coq Require Import Reals QArith Qreals Qminmax List ZArith.
 From Coquelicot Require Import Hierarchy Derive.
 From SB3V Require Import Gen.Frag_loss Model.LossCommon Model.LossPPO Model.LossA2C Model.LossDQN Model.LossSAC Model.LossTD3.
-From SB3V Require Import Proofs.LossProofs Proofs.LossFragProofs.
+From SB3V Require Import Proofs.LossProofs Proofs.LossFragProofs Proofs.LossTwinProofs.
 Import ListNotations.
 Local Open Scope R_scope.
 
@@ -76,6 +76,16 @@ Proof.
 Qed.
 Print Assumptions C07_sac.
 
+(* any number of critics: the actor gradient flows (with -1) only through the strictly smallest Q-value *)
+Theorem C07_sac_actor_any_number_of_critics : forall alpha lp pre x post, pre ++ post <> [] ->
+  (x < min_list (pre ++ post) -> is_derive (fun y : R => sac_actor_term alpha lp (pre ++ y :: post)) x (-1)) /\
+  (min_list (pre ++ post) < x -> is_derive (fun y : R => sac_actor_term alpha lp (pre ++ y :: post)) x 0).
+Proof. exact sac_actor_dq_general. Qed.
+Print Assumptions C07_sac_actor_any_number_of_critics.
+
+Example C07_sac_three_critics_hyp_ok : [1; 3] ++ [2] <> [] /\ 0 < min_list ([1; 3] ++ [2]).
+Proof. split; [discriminate|]. cbn. unfold Rmin. repeat destruct (Rle_dec _ _); Lra.lra. Qed.
+
 (* ---------------- TD3 / DDPG ---------------- *)
 Theorem C07_td3 :
   (forall target q, is_derive (td3_critic_term target) q (2 * (q - target))) /\
@@ -99,14 +109,58 @@ Print Assumptions C07_clip_grad.
 Theorem C07_twins_compute_model :
   (forall r d g nq, Q2R (td_target_Q r d g nq) = td_target (Q2R r) (Q2R d) (Q2R g) (Q2R nq)) /\
   (forall x, Q2R (huber_grad_Q x) = huber_grad (Q2R x)) /\
+  (forall x, Q2R (huber_Q x) = huber (Q2R x)) /\
   (forall A c r, Q2R (ppo_surr_Q A c r) = ppo_surr (Q2R A) (Q2R c) (Q2R r)) /\
   (forall A c r, Q2R (ppo_surr_grad_Q A c r) = ppo_surr_grad (Q2R A) (Q2R c) (Q2R r)) /\
+  (forall cv o v, Q2R (ppo_value_pred_Q cv o v) = ppo_value_pred (optR cv) (Q2R o) (Q2R v)) /\
+  (forall cv ret o v, Q2R (ppo_value_grad_Q cv ret o v) = ppo_value_grad (optR cv) (Q2R ret) (Q2R o) (Q2R v)) /\
   (forall m t, ~ (t + (1 # 1000000) == 0)%Q -> Q2R (clip_coef_Q m t) = clip_coef (Q2R m) (Q2R t)) /\
-  (forall c a n, Q2R (td3_next_action_Q c a n) = td3_next_action (Q2R c) (Q2R a) (Q2R n)).
+  (forall c a n, Q2R (td3_next_action_Q c a n) = td3_next_action (Q2R c) (Q2R a) (Q2R n)) /\
+  (forall A c r e n q y, ~ (n == 0)%Q ->
+     Q2R ((ppo_surr_grad_Q A c r * r + e) / n) = (ppo_surr_grad (Q2R A) (Q2R c) (Q2R r) * Q2R r + Q2R e) / Q2R n /\
+     Q2R (huber_grad_Q (q - y) / n) = huber_grad (Q2R q - Q2R y) / Q2R n /\
+     Q2R ((q - y) / n) = (Q2R q - Q2R y) / Q2R n).
 Proof.
-  exact (conj td_target_Q_R (conj huber_grad_Q_R (conj ppo_surr_Q_R (conj ppo_surr_grad_Q_R (conj clip_coef_Q_R td3_next_action_Q_R))))).
+  exact (conj td_target_Q_R (conj huber_grad_Q_R (conj huber_Q_R (conj ppo_surr_Q_R (conj ppo_surr_grad_Q_R (conj ppo_value_pred_Q_R
+        (conj ppo_value_grad_Q_R (conj clip_coef_Q_R (conj td3_next_action_Q_R component_values))))))))).
 Qed.
 Print Assumptions C07_twins_compute_model.
+
+(* every component of the lists returned by the batch twins is that scalar helper at the corresponding
+   inputs (Q level, closed under the global context) *)
+Local Open Scope Q_scope.
+Theorem C07_batch_twins_components :
+  (forall c cv ec vc he advs ratios rets oldvs vs ents i,
+     (i < length advs)%nat -> (i < length ratios)%nat -> (i < length rets)%nat -> (i < length oldvs)%nat -> (i < length vs)%nat ->
+     let R := ppo_batch_Q c cv ec vc he advs ratios rets oldvs vs ents in
+     nth i (fst (snd R)) 0 == (ppo_surr_grad_Q (nth i advs 0) c (nth i ratios 0) * nth i ratios 0 + (if he then 0 else ec)) / qlen advs /\
+     nth i (fst (snd (snd R))) 0 == vc * ppo_value_grad_Q cv (nth i rets 0) (nth i oldvs 0) (nth i vs 0) / qlen advs /\
+     snd (snd (snd R)) == - ec / qlen advs) /\
+  (forall ec vc he advs lps rets vs ents i, (i < length advs)%nat -> (i < length rets)%nat -> (i < length vs)%nat ->
+     let R := a2c_batch_Q ec vc he advs lps rets vs ents in
+     nth i (fst (snd R)) 0 == (- nth i advs 0 + (if he then 0 else ec)) / qlen advs /\
+     nth i (fst (snd (snd R))) 0 == vc * 2 * (nth i vs 0 - nth i rets 0) / qlen advs /\
+     snd (snd (snd R)) == - ec / qlen advs) /\
+  (forall gamma rs ds rows qs i, let R := dqn_batch_Q gamma rs ds rows qs in
+     (i < length qs)%nat -> (i < length (fst R))%nat ->
+     nth i (snd (snd R)) 0 == huber_grad_Q (nth i qs 0 - nth i (fst R) 0) / qlen qs /\
+     fst (snd R) = qmean (qmap2 (fun q y => huber_Q (q - y)) qs (fst R))) /\
+  (forall ys qcols,
+     snd (sac_critic_Q ys qcols) = map (fun qs => qmap2 (fun q y => (q - y) / qlen ys) qs ys) qcols /\
+     snd (td3_critic_Q ys qcols) = map (fun qs => qmap2 (fun q y => 2 * (q - y) / qlen ys) qs ys) qcols) /\
+  (forall ys qs i, (i < length qs)%nat -> (i < length ys)%nat ->
+     nth i (qmap2 (fun q y => (q - y) / qlen ys) qs ys) 0 == (nth i qs 0 - nth i ys 0) / qlen ys /\
+     nth i (qmap2 (fun q y => 2 * (q - y) / qlen ys) qs ys) 0 == 2 * (nth i qs 0 - nth i ys 0) / qlen ys) /\
+  (forall alpha lps rows la H q1s i, (i < length lps)%nat -> (i < length q1s)%nat ->
+     nth i (fst (snd (sac_actor_Q alpha lps rows))) 0 == alpha / qlen lps /\
+     fst (sac_temp_Q la H lps) == - (la * qmean (map (fun lp => lp + H) lps)) /\
+     snd (sac_temp_Q la H lps) == - qmean (map (fun lp => lp + H) lps) /\
+     nth i (snd (td3_actor_Q q1s)) 0 == - (1) / qlen q1s /\ fst (td3_actor_Q q1s) == - qmean q1s).
+Proof.
+  exact (conj ppo_batch_components (conj a2c_batch_components (conj dqn_batch_components (conj critic_twins_unfold (conj critic_components actor_temp_twins))))).
+Qed.
+Print Assumptions C07_batch_twins_components.
+Local Open Scope R_scope.
 
 (* ---------------- regenerated fragments of the train() methods ---------------- *)
 Local Open Scope Q_scope.
@@ -120,6 +174,12 @@ Theorem C07_fragments_targets :
   (forall n delay, td3_delay_guard n delay = td3_actor_step n delay).
 Proof. exact (conj frag_dqn_target (conj frag_sac_target (conj frag_td3_target (conj frag_targets frag_td3_delay)))). Qed.
 Print Assumptions C07_fragments_targets.
+
+Theorem C07_fragments_signs_and_bounds : forall a lp m c cv cr,
+  sac_actor_term_frag a lp m == a * lp - m /\
+  ppo_clip_lo c == 1 - c /\ ppo_clip_hi c == 1 + c /\ ppo_vclip_lo cv cr == - cv.
+Proof. exact frag_signs. Qed.
+Print Assumptions C07_fragments_signs_and_bounds.
 
 Theorem C07_fragments_losses :
   (forall c cv ec vc he advs ratios rets oldvs vs ents,
